@@ -45,6 +45,26 @@ def run(tier, replay=None):
         "rule": "all labelled simple graphs on <=4/5 vertices + structured random graphs incl. pendant trees and vertices whose residual degree drops to <=1 repeatedly; non-trivial = at least 3 edges; distinct by (n, edge list)",
         "traces_validated_against_impl": len(oks), "fvs_size_histogram": {str(k): sizes.count(k) for k in sorted(set(sizes))},
         "samples": [{"n": c[0], "edges": [e[:2] for e in c[1]]} for c in list(cases.values())[-2:]], **stats(cases)})
+    # very large degrees (oracle only: the list-based model is quadratic): wheels whose hub has 255 … 70000 spokes,
+    # optionally with pendant leaves on the hub, a 70000-leaf star (a forest) and a long cycle
+    if not bad and not replay:
+        big = {}
+        for spokes, leaves in ((255, 0), (256, 3), (65535, 0), (65536, 0), (65537, 0), (65530, 6), (70000, 2)):
+            E = [(0, i, 1) for i in range(1, spokes + 1)] + [(i, i + 1, 1) for i in range(1, spokes)] + [(spokes, 1, 1)]
+            E += [(0, spokes + 1 + j, 1) for j in range(leaves)]
+            big["wheel-%d-%d" % (spokes, leaves)] = (spokes + 1 + leaves, E, 0, "wheel")
+        big["star-70000"] = (70001, [(0, i, 1) for i in range(1, 70001)], 0, "star")
+        big["cycle-66000"] = (66000, [(i, (i + 1) % 66000, 1) for i in range(66000)], 0, "cycle")
+        rcb, outb, errb = run_graph_kind(binary, "fvs", big)
+        bb = parse_blocks(outb)
+        for cid, c in big.items():
+            why = "harness crashed" if rcb != 0 else oracle(c, bb.get(cid, {"lines": []}))
+            if why:
+                res.coverage["large_degree_graphs"] = len(big)
+                res.violation("greedy_fvs on %s (n = %d): %s" % (cid, c[0], why), {"kind": "generated", "family": cid, "n": c[0], "why": why,
+                              "edges_rule": "hub 0 joined to 1..spokes, rim cycle 1..spokes, pendant leaves on the hub (see checks/c13.py)"})
+                return res.finish()
+        res.coverage["large_degree_graphs"] = len(big)
     if bad:
         cid, why = bad[0]
         def still_bad(c):
